@@ -201,6 +201,14 @@ def run(ctx):
     ctx.exhaustive = True
     if not ctx.quick:
         cases += random_cases(ctx, 6000)
+    if not val_hook_in_source():
+        # the hookbig family needs hook v2 (loops above 4096 rows are logged coarsely); with the first
+        # hook every row of a 20 000-row loop would be an event
+        dropped = [c for c in cases if c["kind"] == "hookbig"]
+        cases = [c for c in cases if c["kind"] != "hookbig"]
+        if dropped:
+            vlib.log("NOTE: %s has no value hook (docs/reports/C20-hook2.diff): %d hookbig cases skipped; sizes >= 8192 rows are "
+                     "covered by the run history of the big family only" % (vlib.REPO, len(dropped)))
     vlib.number(cases)
     ctx.cases = len(cases)
     traces = execute(ctx, binp, cases)
